@@ -134,6 +134,21 @@ func (x *Exec) callFunc(st *State, fr *frame, site ssa.Instruction, fn *ssa.Func
 				}
 				continue
 			}
+			// "<arg index>.<field>": a field of a struct-valued argument
+			if dot := strings.Index(c.What, "."); dot > 0 {
+				if idx, err := strconv.Atoi(c.What[:dot]); err == nil && idx < len(args) && idx < len(fn.Params) {
+					if stt, ok := fn.Params[idx].Type().Underlying().(*types.Struct); ok {
+						if r, ok := args[idx].(Rec); ok {
+							for fi := 0; fi < stt.NumFields(); fi++ {
+								if stt.Field(fi).Name() == c.What[dot+1:] && fi < len(r.F) {
+									st.caps[c.Name] = r.F[fi]
+								}
+							}
+						}
+					}
+					continue
+				}
+			}
 			cc := c
 			prev := k
 			k = func(st *State, v Val) {
@@ -176,7 +191,7 @@ func (x *Exec) callFunc(st *State, fr *frame, site ssa.Instruction, fn *ssa.Func
 		return
 	}
 	inRepo := fn.Pkg != nil && strings.HasPrefix(fn.Pkg.Pkg.Path(), "github.com/regen-network/regen-ledger")
-	if fn.Parent() != nil || (con != nil && con.Inline) || (inRepo && x.autoInline(fn)) {
+	if fn.Parent() != nil || (con != nil && con.Inline) || (inRepo && x.autoInline(fn)) || trivialGetter(fn) {
 		s.Inlined[name] = true
 		x.runFunc(st, fn, args, bind, fr.depth+1, con, false, wrapK)
 		return
@@ -190,6 +205,23 @@ func (x *Exec) callFunc(st *State, fr *frame, site ssa.Instruction, fn *ssa.Func
 		return
 	}
 	subsetf("no contract for %s", name)
+}
+
+// trivialGetter: generated protobuf accessor `func (x *T) GetF() U { if x != nil { return x.F }; return zero }`
+// of any package: at most three blocks, no calls. Executed in place.
+func trivialGetter(fn *ssa.Function) bool {
+	if fn.Signature.Recv() == nil || !strings.HasPrefix(fn.Name(), "Get") || len(fn.Blocks) == 0 || len(fn.Blocks) > 3 || fn.Signature.Params().Len() != 0 {
+		return false
+	}
+	for _, b := range fn.Blocks {
+		for _, ins := range b.Instrs {
+			switch ins.(type) {
+			case ssa.CallInstruction, *ssa.MakeMap, *ssa.MakeSlice, *ssa.Alloc, *ssa.Store, *ssa.MapUpdate:
+				return false
+			}
+		}
+	}
+	return true
 }
 
 var purePkgs = map[string]bool{"strings": true, "strconv": true, "unicode": true, "unicode/utf8": true, "math": true, "math/bits": true, "path": true}
